@@ -60,4 +60,93 @@ def processed (ok : Nat → Bool) (cont : Bool) : Nat → List Elem → Nat
   | _, [] => 0
   | i, e :: es => if fails ok i e && !cont then 1 else 1 + processed ok cont (i + 1) es
 
+/-! ### what an element looks like on the wire, and what the backend answers
+
+`Elem.parses` and the function `ok` above are all that decides the control flow of `ProcessBulk`.  The two maps below say
+where they come from for the element bodies the differential sends (`harness/bulk.go`): `decodes` is the verdict of the
+`json.Unmarshal` calls `ProcessBulk` makes BEFORE it calls the backend (an element that does not decode is answered `ERROR`
+and never executed); `Ans` is the answer of the backend call itself (for a transaction given as a script the engine
+compiles the script first: `engine.Ledger.CreateTransaction` → `Commander.exec` → `NewErrNoScript` / `NewErrCompilationFailed`). -/
+
+/-- the body shapes of the `data` field (the names are those of the harness; `other` = an ordinary body of the action) -/
+inductive Body
+  | other            -- well-formed for the action: postings / a target with an id of the right kind / an id
+  | script           -- CREATE_TRANSACTION given as a Numscript that compiles (with or without variables)
+  | scriptBroken     -- … as a Numscript that does not compile, or whose variables are missing
+  | both             -- non-empty postings AND a script
+  | neither          -- no postings and no script (also `{"postings":[]}`, `{"script":{"plain":""}}`, `null`)
+  | null             -- the JSON value `null`
+  | noData           -- no `data` member at all
+  | wrongShape       -- a JSON value of another kind (`7`)
+  | badField         -- an object with a member of the wrong type for the request struct
+  | noTarget         -- metadata actions: no `targetId`
+  | txIdNotNumber    -- metadata actions: `targetType` TRANSACTION with a string / fractional id
+  | looseId          -- metadata actions: an id the decoder lets through although the target has no such id
+                     -- (ACCOUNT with a number / object / empty string, TRANSACTION with `null` or a negative number,
+                     -- an unknown or missing `targetType`)
+  | idNotNumber      -- REVERT_TRANSACTION: `id` a string or a fraction
+  | noId             -- REVERT_TRANSACTION: no `id` (the backend is called with a nil id)
+  | flagNotBool      -- REVERT_TRANSACTION: `force` is not a boolean
+deriving DecidableEq, Repr, Inhabited
+
+/-- do the `json.Unmarshal` calls `ProcessBulk` makes for action `a` accept this body?  (`null` decodes into the zero
+request; for the metadata actions the zero request has no `targetId`, which the second `Unmarshal` refuses) -/
+def decodes (a : Action) (b : Body) : Bool :=
+  match b with
+  | .wrongShape | .badField | .noData => false
+  | .noTarget | .txIdNotNumber => !(a == .addMeta || a == .delMeta)
+  | .idNotNumber | .flagNotBool => !(a == .revert)
+  | .null => !(a == .addMeta || a == .delMeta)
+  | _ => true
+
+/-- what the handler's error mapping looks at in the error a backend call returned -/
+structure BErr where
+  insufficient : Bool   -- `machine.IsInsufficientFundError`
+  command      : Bool   -- `engine.IsCommandError`
+  saveNotFound : Bool   -- `command.IsSaveMetaError(err, TRANSACTION_NOT_FOUND)`
+  delNotFound  : Bool   -- `command.IsDeleteMetaError(err, TRANSACTION_NOT_FOUND)`
+deriving DecidableEq, Repr, Inhabited
+
+/-- the answer of one backend call -/
+inductive Ans
+  | ok
+  | err (e : BErr)
+deriving DecidableEq, Repr, Inhabited
+
+def Ans.isOk : Ans → Bool
+  | .ok => true
+  | .err _ => false
+
+/-- an error of the engine that is none of the classes the handlers single out (NO_SCRIPT, COMPILATION_FAILED, CONFLICT,
+NO_POSTINGS, a revert error, a Numscript run-time error other than insufficient funds …): a command error -/
+def BErr.plainCommand : BErr := ⟨false, true, false, false⟩
+
+/-- the engine in front of the scripted answer: a transaction without script is refused (`NewErrNoScript`), one whose
+script does not compile too (`NewErrCompilationFailed`), before anything else happens; `both` is executed from its
+postings (`ToRunScript` drops the script) -/
+def engineAns (a : Action) (b : Body) (scripted : Ans) : Ans :=
+  if a == .create && (b == .scriptBroken || b == .neither || b == .null) then .err BErr.plainCommand else scripted
+
+/-- the `errorCode` of a result: the switch after each backend call; before the call every failure is `VALIDATION` -/
+def backendCode (a : Action) (e : BErr) : String :=
+  match a with
+  | .create => if e.insufficient then "INSUFFICIENT_FUND" else if e.command then "VALIDATION" else "INTERNAL"
+  | .addMeta => if e.saveNotFound then "NOT_FOUND" else "INTERNAL"
+  | .revert => if e.command then "VALIDATION" else "INTERNAL"
+  | .delMeta => if e.delNotFound then "NOT_FOUND" else "INTERNAL"
+  | .unknown => "VALIDATION"
+
+/-- the error code answered for element `e` at position `i` (`""` = no error) -/
+def codeOf (back : Nat → Ans) (i : Nat) (e : Elem) : String :=
+  if !called e then "VALIDATION" else
+  match back i with
+  | .ok => ""
+  | .err b => backendCode e.action b
+
+/-- the error codes of the results, computed along `go` with `ok i = (back i).isOk` -/
+def goCodes (back : Nat → Ans) (cont : Bool) : Nat → List Elem → List String
+  | _, [] => []
+  | i, e :: es =>
+    codeOf back i e :: (if fails (fun k => (back k).isOk) i e && !cont then [] else goCodes back cont (i + 1) es)
+
 end Bulk
